@@ -50,6 +50,24 @@ func c08behave(w http.ResponseWriter, r *http.Request, st *psim.Stamp) bool {
 			}
 		}
 		return true
+	case "close-mid-chunked":
+		// no Content-Length: only the way the connection ends tells the client that the body is incomplete
+		w.WriteHeader(200)
+		_, _ = w.Write(bytes.Repeat([]byte("x"), 1000))
+		if f, ok := w.(http.Flusher); ok {
+			f.Flush()
+		}
+		time.Sleep(20 * time.Millisecond)
+		if hj, ok := w.(http.Hijacker); ok {
+			c, _, err := hj.Hijack()
+			if err == nil {
+				if tc, ok := c.(*net.TCPConn); ok {
+					_ = tc.SetLinger(0)
+				}
+				c.Close()
+			}
+		}
+		return true
 	case "slow":
 		time.Sleep(proxyTimeout + 400*time.Millisecond)
 		return false
@@ -71,6 +89,7 @@ func c08behave(w http.ResponseWriter, r *http.Request, st *psim.Stamp) bool {
 	w.Header().Set("X-Seen-Path", st.Path)
 	w.Header().Set("X-Seen-Query", st.RawQuery)
 	w.Header().Set("X-Seen-Host", st.Host)
+	w.Header().Set("X-Seen-Accept-Encoding", strings.Join(r.Header.Values("Accept-Encoding"), "|"))
 	w.Header().Set("X-Seen-Bodylen", strconv.Itoa(st.BodyLen))
 	w.Header().Set("X-Seen-Bodysum", strconv.Itoa(int(st.BodySum)))
 	var hs []string
@@ -84,6 +103,10 @@ func c08behave(w http.ResponseWriter, r *http.Request, st *psim.Stamp) bool {
 	body := make([]byte, size)
 	for i := range body {
 		body[i] = byte('a' + (i*7)%23)
+	}
+	if enc := r.Header.Get("X-Resp-Encoding"); enc != "" {
+		// the upstream labels its body as encoded (the bytes are opaque to a transparent proxy)
+		w.Header().Set("Content-Encoding", enc)
 	}
 	if r.Header.Get("X-Resp-Chunked") == "" {
 		w.Header().Set("Content-Length", strconv.Itoa(size))
@@ -183,6 +206,15 @@ func runC08(rng *rand.Rand, ncases int, emit emitter) error {
 		if rng.Intn(3) == 0 && rsize > 0 {
 			req.Header.Set("X-Resp-Chunked", "1")
 		}
+		acceptEnc := []string{"", "", "identity", "gzip", "br, gzip;q=0.5"}[rng.Intn(5)]
+		if acceptEnc != "" {
+			req.Header.Set("Accept-Encoding", acceptEnc)
+		}
+		respEnc := ""
+		if rng.Intn(4) == 0 && rsize > 0 && method != "HEAD" {
+			respEnc = []string{"gzip", "br", "identity"}[rng.Intn(3)]
+			req.Header.Set("X-Resp-Encoding", respEnc)
+		}
 		s := &Step{Op: "Http", Case: "transparent", Route: route, Mode: mode, WantSt: status, Target: ep}
 		s.Note = method + " " + path + "?" + q
 		t0 := time.Now()
@@ -207,6 +239,8 @@ func runC08(rng *rand.Rand, ncases int, emit emitter) error {
 		diff("req.path", resp.Header.Get("X-Seen-Path"), path)
 		diff("req.query", resp.Header.Get("X-Seen-Query"), q)
 		diff("req.host", resp.Header.Get("X-Seen-Host"), host)
+		diff("req.accept-encoding", resp.Header.Get("X-Seen-Accept-Encoding"), acceptEnc)
+		diff("resp.content-encoding", resp.Header.Get("Content-Encoding"), respEnc)
 		diff("req.bodylen", resp.Header.Get("X-Seen-Bodylen"), strconv.Itoa(size))
 		diff("req.bodysum", resp.Header.Get("X-Seen-Bodysum"), strconv.Itoa(int(psim.Sum(body))))
 		var hs []string
@@ -247,6 +281,7 @@ func runC08(rng *rand.Rand, ncases int, emit emitter) error {
 		{name: "goaway", ep: "gone"},
 		{name: "close-early", ep: "e", hdr: map[string]string{"X-Behave": "close-early"}},
 		{name: "close-mid", ep: "e", hdr: map[string]string{"X-Behave": "close-mid"}},
+		{name: "close-mid-chunked", ep: "e", hdr: map[string]string{"X-Behave": "close-mid-chunked"}},
 		{name: "slow", ep: "e", hdr: map[string]string{"X-Behave": "slow"}},
 		{name: "slow-upgrade", ep: "e", hdr: map[string]string{"X-Behave": "slow", "Upgrade": "websocket", "Connection": "Upgrade"}, upgrade: true},
 		// any other protocol upgrade is an ordinary request as far as the timeout goes
@@ -288,6 +323,9 @@ func runC08(rng *rand.Rand, ncases int, emit emitter) error {
 						s.Note = "body: " + rerr.Error()
 						s.Fields = append(s.Fields, "body-error")
 					} else if f.name == "close-mid" && len(rb) == 100000 {
+						s.Fields = append(s.Fields, "complete-body")
+					} else if f.name == "close-mid-chunked" {
+						// the body ended without an error although the upstream was cut off in the middle of it
 						s.Fields = append(s.Fields, "complete-body")
 					}
 				}
